@@ -18,6 +18,7 @@ func init() {
 		"tlb.dec":   exTlbDec,
 		"go.rt":     goRoundTrip,
 		"go.redec":  goReDecode,
+		"go.stable": goStable,
 		"go.bigint": goBigInt,
 	})})
 }
@@ -66,7 +67,7 @@ func genC03(g *h.G) {
 		g.Count("types_" + tt.Class)
 		tlbU.Walk(tt.D, map[string]bool{}, func(*tlbx.Desc) {})
 		switch tt.Class {
-		case "unsupported":
+		case "unsupported", "not-tlb":
 			continue
 		case "model", "partial":
 			for i := 0; i < perType; i++ {
@@ -107,7 +108,12 @@ func genC03(g *h.G) {
 				v := reflect.New(tt.T).Elem()
 				goc.Gen(tt.D, v, "p")
 				txt := tlbx.Print(v)
-				g.Emit("go.rt", tt.Name, txt)
+				if strings.Contains(txt, ":?") {
+					// holds a Go interface (decoded payload of unknown type): no textual value form
+					g.Count("opaque_types_with_interface_values")
+					break
+				}
+				g.Emit("go.stable", tt.Name, txt)
 				if strings.Count(txt, "(") >= 2 {
 					g.NonTrivial(tt.Name + "/" + txt)
 				}
